@@ -93,6 +93,14 @@ def run(seed, tier, replay=None):
         insts.append(dict(noisy="o" in inp or "s" in inp, a=C.unhex(inp["a"]), b=C.unhex(inp["b"]), c=int(inp["c"]),
                           convex=bool(inp["convex"]), s=C.unhex(inp["s"]) if "s" in inp else None, replay=inp))
     else:
+        # far locations for the integrated curves (the property puts no bound on the location there: "D has (a,b,c[,s(b-a)]) with b>a"):
+        # supports 1e3 ... 1e6 widths from the origin, sharp curves (small s); they come first so that they are always within the
+        # budget of integrated pairs, and only the integrated stage is run on them (the pointwise identities are stated at tolerances
+        # relative to the scale, which input rounding alone exceeds that far out)
+        far_rng = C.rng_for("C09:far-location", seed)
+        for t, wv in ((1000.0, 1.0), (-5000.0, 2.0), (30000.0, 1.0), (far_rng.choice([1e5, -1e6]), far_rng.choice([1.0, 1e-3]))):
+            insts.append(dict(noisy=True, a=t * wv, b=t * wv + wv, c=far_rng.choice([1, 3, 4, 5, 7, 10]), convex=far_rng.random() < 0.5,
+                              s=far_rng.choice([1.7e-3, 4.1e-3, 1.3e-2]), far=True))
         for i in range(n_inst):
             insts.append(gen_instance(rng, switches, noisy=(i % 2 == 1)))
 
@@ -152,13 +160,16 @@ def run(seed, tier, replay=None):
             qp = gen_qpairs(rng, 8)
             ns = Q.gen_ns(rng, 5)
             q_curve = rng.choice([0.5, 0.5, 0.25, 0.75, 0.9375])
-            try:
-                paired_checks(rep, rng, drv, k, cls, inp, D, Dr, D0, a, b, c, convex, o, s, S, w, ys, zex, qp, ns,
-                              q_curve, tol_cdf)
-            except Exception as e:   # a documented method raised on a valid input
-                rep.violate(what="a documented method raised on an input of the property's domain", error=repr(e),
-                            input=inp, call=cls)
-                continue
+            if k.get("far"):
+                rep.count("integrated:far_location(|a|/(b-a)=%g)" % abs(a / w))
+            else:
+                try:
+                    paired_checks(rep, rng, drv, k, cls, inp, D, Dr, D0, a, b, c, convex, o, s, S, w, ys, zex, qp, ns,
+                                  q_curve, tol_cdf)
+                except Exception as e:   # a documented method raised on a valid input
+                    rep.violate(what="a documented method raised on an input of the property's domain", error=repr(e),
+                                input=inp, call=cls)
+                    continue
             if noisy and avg_budget > 0 and s > 0:
                 avg_budget -= 1
                 nmn = integrated_checks(rep, rng, drv, k, inp, NQ, D, Dr, D0, a, b, c, convex, o, s, S, w)
